@@ -660,6 +660,18 @@ func (r *rewriter) sharedNamed(t types.Type) bool {
 	return set != nil && set[n.Obj().Name()]
 }
 
+var bufMutators = map[string]bool{"Reset": true, "Write": true, "WriteString": true, "WriteByte": true, "WriteRune": true, "WriteTo": true,
+	"Read": true, "ReadByte": true, "ReadRune": true, "ReadFrom": true, "ReadBytes": true, "ReadString": true, "Next": true, "Truncate": true, "Grow": true, "UnreadByte": true, "UnreadRune": true}
+
+func (r *rewriter) isBuffer(e ast.Expr) bool {
+	t := r.pkg.TypesInfo.TypeOf(e)
+	if t == nil {
+		return false
+	}
+	s := t.String()
+	return s == "*bytes.Buffer" || s == "bytes.Buffer"
+}
+
 func syncish(t types.Type) bool {
 	if p, ok := t.Underlying().(*types.Pointer); ok {
 		t = p.Elem()
@@ -787,8 +799,23 @@ func (r *rewriter) probeStmt(c *astutil.Cursor, st ast.Stmt) {
 		case *ast.ParenExpr:
 			visit(x.X, write)
 		case *ast.CallExpr:
+			// a *bytes.Buffer field of a shared struct: mutating methods and
+			// handing the buffer to a callee (an io.Writer) write it
+			if fs, ok := x.Fun.(*ast.SelectorExpr); ok {
+				if inner, ok := unparen(fs.X).(*ast.SelectorExpr); ok && r.isBuffer(inner) && bufMutators[fs.Sel.Name] {
+					if ch, whole := r.chainOf2(inner); ch != nil && whole {
+						add(ch, true)
+					}
+				}
+			}
 			visit(x.Fun, false)
 			for _, a := range x.Args {
+				if sel, ok := unparen(a).(*ast.SelectorExpr); ok && r.isBuffer(sel) {
+					if ch, whole := r.chainOf2(sel); ch != nil && whole {
+						add(ch, true)
+						continue
+					}
+				}
 				visit(a, false)
 			}
 		case *ast.BinaryExpr:
